@@ -646,8 +646,23 @@ pub fn sched_block(t: u8, wait: Wait, deadline: Option<u64>) -> Woke {
                         s.violate("deadlock", format!("deadlock/in={}/call={:?}", label, call), format!("no entity can make progress and no timer is pending: {}", desc));
                         s.poison("deadlock");
                     } else {
-                        s.poison("harness_deadlock");
-                        s.harness_error.get_or_insert(format!("harness-level deadlock: {}", desc));
+                        // the caller itself blocked for good on a pipe the library handed out (feeding
+                        // or draining a child the way the API intends): the wiring made that impossible
+                        let on_lib_pipe = match &wait {
+                            Wait::Readable(d) | Wait::Writable(d, _) => match s.k.descs[*d].kind {
+                                DescKind::PipeR(pi) | DescKind::PipeW(pi) => s.k.pipes[pi].origin == Origin::Lib,
+                                _ => false,
+                            },
+                            _ => false,
+                        };
+                        if on_lib_pipe {
+                            let call = s.threads[t as usize].cur_call;
+                            s.violate("deadlock", format!("deadlock/in=caller_io_on_library_pipe/call={:?}", call), format!("the caller is blocked for good on a pipe end the library handed out; no entity can make progress and no timer is pending: {}", desc));
+                            s.poison("deadlock");
+                        } else {
+                            s.poison("harness_deadlock");
+                            s.harness_error.get_or_insert(format!("harness-level deadlock: {}", desc));
+                        }
                     }
                     res = Woke::Poisoned;
                     break;
